@@ -56,6 +56,7 @@ func (x *ChanCaster[C, V]) Send(value V) int {
 	}
 
 	// prevent receivers being added while sending + order values by send call
+	verifAt("caster.send.lock", x, 0)
 	x.mutex.Lock()
 	defer x.mutex.Unlock()
 
@@ -66,6 +67,7 @@ func (x *ChanCaster[C, V]) Send(value V) int {
 		receivers, tracker uint32
 	)
 	for {
+		verifAt("caster.send.load", x, 0)
 		state = x.state.Load()
 		if state == 0 {
 			return 0 // no receivers (slow path)
@@ -80,6 +82,7 @@ func (x *ChanCaster[C, V]) Send(value V) int {
 		// attempt to set tracker to `maxInt32 + receivers`, with CAS used to
 		// synchronise with decrements of receivers
 		tracker += math.MaxInt32
+		verifAt("caster.send.cas", x, 0)
 		if x.state.CompareAndSwap(state, uint64(receivers)<<32|uint64(tracker)) {
 			break
 		}
@@ -88,11 +91,13 @@ func (x *ChanCaster[C, V]) Send(value V) int {
 	// broadcast involves sending to all receivers - with the total actually
 	// received being in range [0, receivers], due to potential decrements
 	for range receivers {
+		verifAt("caster.send.send", x, 0)
 		x.C <- value // may end up received by negative Add calls
 	}
 
 	// now, we can retrieve, validate, then reset the state (to 0 - all broadcast + we locked so none added)
 	// note: it should be stable - if it isn't, invariants were violated
+	verifAt("caster.send.final", x, 0)
 	state = x.state.Load()
 	tracker = uint32(state >> 32) // actually the final receivers (used as scratch)
 	if tracker > receivers ||     // receivers should be unchanged or decreased (and also lower than math.MaxInt32)
@@ -140,6 +145,7 @@ func (x *ChanCaster[C, V]) Add(delta int) int {
 			panic(`bigbuff: chancaster: add: positive delta out of bounds`)
 		} else {
 			// increasing num receivers not allowed concurrently with sending
+			verifAt("caster.add.rlock", x, delta)
 			x.mutex.RLock()
 			defer x.mutex.RUnlock()
 
@@ -164,6 +170,7 @@ func (x *ChanCaster[C, V]) Add(delta int) int {
 		delta = -delta
 
 		// note: same delta calc as above, subtracted using two's complement rules
+		verifAt("caster.add.dec", x, delta)
 		state := x.state.Add(^(uint64(delta)<<32 | uint64(uint32(delta)) - 1))
 
 		// validate, and, if necessary, receive any channel sends that would
@@ -179,6 +186,7 @@ func (x *ChanCaster[C, V]) Add(delta int) int {
 				// sending - perform the requisite number of receives
 				// note: receivers = tracker-maxReceivers (per the above)
 				for range delta {
+					verifAt("caster.add.recv", x, 0)
 					<-x.C
 				}
 				return int(receivers) // note: already subtracted delta
